@@ -55,6 +55,41 @@ def rename_vars(x, m):
     return x
 
 
+# token forms of the scanners (sparql_quoted_literal, sparql_numeric_literal, sparql_iri): (lexical the parser must report, spelling)
+# a quoted literal without suffix is reported without its quotes (escape sequences kept as written); every other token as written
+EXOTIC_OBJ = [('say \\"hi\\"', '"say \\"hi\\""'), ("x # y", '"x # y"'), ("a } b { c", '"a } b { c"'), ("?v", '"?v"'), ("<b>", '"<b>"'),
+              ("semi ; colon . dot , comma", '"semi ; colon . dot , comma"'), ("l1", "'l1'"), ("it's", '"it\'s"'), ('tab\\tnew\\nline', '"tab\\tnew\\nline"'),
+              ("\u00e9\u2713", '"\u00e9\u2713"'), ('"l1"@en', '"l1"@en'), ('"l1"@en-GB', '"l1"@en-GB'),
+              ('"5"^^<http://www.w3.org/2001/XMLSchema#integer>', '"5"^^<http://www.w3.org/2001/XMLSchema#integer>'),
+              ("1.5", "1.5"), ("-2.50", "-2.50"), ("true", "true"), ("false", "false"), ("SELECT", '"SELECT"'), ("UNION {", '"UNION {"')]
+EXOTIC_IRI = ["http://e/a#frag", "http://e/a?x=1&y=2", "urn:x:y", "mailto:a@b.c", "http://e/\u00e9", "http://e/a.b;c,d"]
+
+
+def exotic_terms(x, rng, txt, pos=None):
+    """Replace some constants of a tree by terms that stress the token scanners; txt collects their spellings."""
+    if isinstance(x, list):
+        if len(x) == 2 and x[0] == "c" and isinstance(x[1], str):
+            if pos == "o" and rng.random() < 0.3:
+                lex, sp = rng.choice(EXOTIC_OBJ)
+                txt[lex] = sp
+                return ["c", lex]
+            if pos in ("s", "p", "o", "g") and x[1].startswith("http://") and rng.random() < 0.2:
+                lex = rng.choice(EXOTIC_IRI)
+                txt[lex] = "<" + lex + ">"
+                return ["c", lex]
+            return x
+        if len(x) in (3, 4) and all(isinstance(t, list) and len(t) == 2 and t[0] in ("v", "c", "b", "u") for t in x):
+            return [exotic_terms(t, rng, txt, "spog"[k]) for k, t in enumerate(x)]      # a triple pattern / quad template
+        return [exotic_terms(y, rng, txt, pos) for y in x]
+    if isinstance(x, dict):
+        if x.get("t") == "values":
+            return dict(x, rows=[[exotic_terms(t, rng, txt, "o") for t in row] for row in x["rows"]])
+        if x.get("t") == "graph":
+            return dict(x, name=exotic_terms(x["name"], rng, txt, "g"), p=exotic_terms(x["p"], rng, txt))
+        return {k: exotic_terms(v, rng, txt) for k, v in x.items()}
+    return x
+
+
 def arith(rng, scope, depth):
     if depth == 0 or rng.random() < 0.25:
         return G.V(rng.choice(scope)) if scope and rng.random() < 0.5 else G.C(rng.choice(["1", "2", "3", "5", "10"]))
@@ -93,9 +128,16 @@ def gen_trees(seed, n):
             tree = add_arith(tree, rng, ["a", "b", "c", "d"])
         if i % 5 >= 3:
             tree = rename_vars(tree, NAMES[(i // 5) % len(NAMES)])
+        extra = {}
+        if i % 4 != 1:
+            tree = exotic_terms(tree, rng, extra)
+            if kind == "update" and tree.get("form") == "delete_where_short":
+                tree["where"] = G.where_of_quads(tree["del"])      # the short form has one block: pattern = template
         lex = set()
         lexicals_of(tree, lex)
-        cases.append({"kind": kind, "tree": tree, "txt": {x: G.render(x) for x in lex}})
+        txt = {x: G.render(x) for x in lex}
+        txt.update(extra)
+        cases.append({"kind": kind, "tree": tree, "txt": txt})
     return cases
 
 
